@@ -1,4 +1,5 @@
 import Driver.Common
+import FsicModel.Solver
 /-
 Executable instance of M1 for the correspondence check: a *scripted* model whose every pass / hook plays a
 prescribed action, over IEEE doubles.  The Python harness runs the same script through the real
@@ -159,4 +160,9 @@ def handleSolvePeriod (j : Json) : R String := do
   let (w', r) := solvePeriod (logged (interp M)) o M.n (l.getD .missing) ⟨(w.user, []), w.status, w.iters⟩
   pure ((match r with | some r => resultStr r | none => "KeyError") ++ "|" ++ worldStr w')
 
+end Drv.Solver
+
+namespace Drv.Solver
+def handlers : List (String × (Lean.Json → Except String String)) :=
+  [("solve_t", handleSolveT), ("solve", handleSolve), ("solve_period", handleSolvePeriod)]
 end Drv.Solver
